@@ -806,3 +806,317 @@ Definition sep_op (o : op) : bool :=
   | OExtend _ _ cp _ => cp
   | _ => true
   end.
+
+(* ------------------------------------------------------------------------------------ *)
+(* the simple list model (specification): no objects, no records, only values            *)
+(* ------------------------------------------------------------------------------------ *)
+
+Record spec := mkS {
+  s_hnd : list value;                               (* value of every caller droplet *)
+  s_ems : list (option dtype * list value);         (* every emulsion: dtype, member values *)
+  s_tcs : list (list Q * list cid);                 (* time courses: times, emulsions (by number) *)
+  s_trs : list (list Q * list value);               (* tracks: times, droplet values *)
+  s_tls : list (list nat)
+}.
+
+Definition abs (h : heap) : spec :=
+  mkS (abs_vals h (hnd h))
+      (map (fun e => (e_dtype e, abs_vals h (e_mem e))) (ems h))
+      (map (fun t => (tc_times t, tc_ems t)) (tcs h))
+      (map (fun k => (tr_times k, abs_vals h (tr_drops k))) (trs h))
+      (tls h).
+
+Definition sp_hnd s x := mkS x (s_ems s) (s_tcs s) (s_trs s) (s_tls s).
+Definition sp_ems s x := mkS (s_hnd s) x (s_tcs s) (s_trs s) (s_tls s).
+Definition sp_tcs s x := mkS (s_hnd s) (s_ems s) x (s_trs s) (s_tls s).
+Definition sp_trs s x := mkS (s_hnd s) (s_ems s) (s_tcs s) x (s_tls s).
+Definition sp_tls s x := mkS (s_hnd s) (s_ems s) (s_tcs s) (s_trs s) x.
+
+Definition sp_append (s : spec) (c : nat) (v : value) (force : bool) : spec * outcome :=
+  match nth_error (s_ems s) c with
+  | None => (s, Err EIndex)
+  | Some (d, vs) =>
+    if rejects (mkE d []) v force then (s, Err EValue)
+    else (sp_ems s (upd (s_ems s) c (new_dtype (mkE d []) v, vs ++ [v])), Ok)
+  end.
+
+Fixpoint sp_extend (s : spec) (c : nat) (vs : list value) (force : bool) : spec * outcome :=
+  match vs with
+  | [] => (s, Ok)
+  | v :: r => match sp_append s c v force with
+              | (s1, Ok) => sp_extend s1 c r force
+              | (s1, Err e) => (s1, Err e)
+              end
+  end.
+
+Definition sp_new_em (s : spec) (vs : list value) : spec :=
+  sp_ems s (s_ems s ++ [(hd_error (map dtype_of vs), vs)]).
+
+Definition sp_fresh (e : option dtype * list value) : option dtype * list value :=
+  (hd_error (map dtype_of (snd e)), snd e).
+
+Definition sp_set_member (s : spec) (c i : nat) (f : value -> option value) : spec * outcome :=
+  match nth_error (s_ems s) c with
+  | None => (s, Err EIndex)
+  | Some (d, vs) =>
+    match nth_error vs i with
+    | None => (s, Err EIndex)
+    | Some v => match f v with
+                | None => (s, Err EIndex)
+                | Some v' => (sp_ems s (upd (s_ems s) c (d, upd vs i v')), Ok)
+                end
+    end
+  end.
+
+Definition spec_step (s : spec) (o : op) : spec * outcome :=
+  match o with
+  | ONew v => (sp_hnd s (s_hnd s ++ [v]), Ok)
+  | OView i => match nth_error (s_hnd s) i with
+               | None => (s, Err EIndex)
+               | Some v => (sp_hnd s (s_hnd s ++ [v]), Ok)
+               end
+  | OSetH i k q =>
+    match nth_error (s_hnd s) i with
+    | None => (s, Err EIndex)
+    | Some v => match set_flat v k q with
+                | None => (s, Err EIndex)
+                | Some v' => (sp_hnd s (upd (s_hnd s) i v'), Ok)
+                end
+    end
+  | OEmNew => (sp_ems s (s_ems s ++ [(None, [])]), Ok)
+  | OAppend c i _ f =>
+    match nth_error (s_hnd s) i with
+    | None => (s, Err EIndex)
+    | Some v => sp_append s c v f
+    end
+  | OExtend c is _ f =>
+    match mapM (nth_error (s_hnd s)) is with
+    | None => (s, Err EIndex)
+    | Some vs => match nth_error (s_ems s) c with
+                 | None => (s, Err EIndex)
+                 | Some _ => sp_extend s c vs f
+                 end
+    end
+  | OGet c i =>
+    match nth_error (s_ems s) c with
+    | None => (s, Err EIndex)
+    | Some (_, vs) => match nth_error vs i with
+                      | None => (s, Err EIndex)
+                      | Some v => (sp_hnd s (s_hnd s ++ [v]), Ok)
+                      end
+    end
+  | OSetM c i k q => sp_set_member s c i (fun v => set_flat v k q)
+  | OCopy c q =>
+    match nth_error (s_ems s) c with
+    | None => (s, Err EIndex)
+    | Some (_, vs) => (sp_new_em s (filter (keeps_copy q) vs), Ok)
+    end
+  | OSlice c lo hi =>
+    match nth_error (s_ems s) c with
+    | None => (s, Err EIndex)
+    | Some (_, vs) => (sp_new_em s (slice lo hi vs), Ok)
+    end
+  | OAdd c1 c2 =>
+    match nth_error (s_ems s) c1, nth_error (s_ems s) c2 with
+    | Some (_, vs1), Some (_, vs2) => (sp_new_em s (vs1 ++ vs2), Ok)
+    | _, _ => (s, Err EIndex)
+    end
+  | ORemoveSmall c q =>
+    match nth_error (s_ems s) c with
+    | None => (s, Err EIndex)
+    | Some (d, vs) => (sp_ems s (upd (s_ems s) c (d, filter (keeps_copy q) vs)), Ok)
+    end
+  | ORemoveOverlap c removed =>
+    match nth_error (s_ems s) c with
+    | None => (s, Err EIndex)
+    | Some (d, vs) =>
+      if pairwise_ok vs
+      then (sp_ems s (upd (s_ems s) c (d, filter_by (keep_flags (length vs) removed) vs)), Ok)
+      else (s, Err EValue)
+    end
+  | OLink c =>
+    match nth_error (s_ems s) c with
+    | None => (s, Err EIndex)
+    | Some (d, vs) =>
+      match vs with
+      | [] => match d with None => (s, Err EOther) | Some _ => (s, Ok) end
+      | _ :: _ => if negb (all_eqb Nat.eqb (map cls vs)) then (s, Err EType) else (s, Ok)
+      end
+    end
+  | OWriteA _ _ _ _ => (s, Ok)      (* not a list-model operation: the array is an alias by design *)
+  | OMerge c i j inplace v =>
+    match nth_error (s_ems s) c with
+    | None => (s, Err EIndex)
+    | Some (d, vs) =>
+      match nth_error vs i, nth_error vs j with
+      | Some vi, Some vj =>
+        if inplace then (sp_ems s (upd (s_ems s) c (d, upd vs i v)), merge_status vi vj)
+        else match merge_status vi vj with
+             | Ok => (sp_hnd s (s_hnd s ++ [v]), Ok)
+             | Err x => (s, Err x)
+             end
+      | _, _ => (s, Err EIndex)
+      end
+    end
+  | OTcNew cs times =>
+    match mapM (nth_error (s_ems s)) cs with
+    | None => (s, Err EIndex)
+    | Some es =>
+      let ts := match times with None => range_q (length es) | Some ts => ts end in
+      if Nat.eqb (length ts) (length es)
+      then (sp_tcs (sp_ems s (s_ems s ++ map sp_fresh es))
+                   (s_tcs s ++ [(ts, seq (length (s_ems s)) (length es))]), Ok)
+      else (s, Err EValue)
+    end
+  | OTcAppend t c time _ =>
+    match nth_error (s_tcs s) t, nth_error (s_ems s) c with
+    | Some (ts, cs), Some e =>
+      let tm := match time with Some q => q | None => default_time ts end in
+      (sp_tcs (sp_ems s (s_ems s ++ [sp_fresh e]))
+              (upd (s_tcs s) t (ts ++ [tm], cs ++ [length (s_ems s)])), Ok)
+    | _, _ => (s, Err EIndex)
+    end
+  | OTcAppendBad t =>
+    match nth_error (s_tcs s) t with None => (s, Err EIndex) | Some _ => (s, Err EType) end
+  | OTcSlice t lo hi =>
+    match nth_error (s_tcs s) t with
+    | None => (s, Err EIndex)
+    | Some (ts, cs) =>
+      match mapM (nth_error (s_ems s)) (slice lo hi cs) with
+      | None => (s, Err EDangling)
+      | Some es =>
+        if Nat.eqb (length (slice lo hi ts)) (length es)
+        then (sp_tcs (sp_ems s (s_ems s ++ map sp_fresh es))
+                     (s_tcs s ++ [(slice lo hi ts, seq (length (s_ems s)) (length es))]), Ok)
+        else (s, Err EValue)
+      end
+    end
+  | OTcClear t =>
+    match nth_error (s_tcs s) t with
+    | None => (s, Err EIndex)
+    | Some _ => (sp_tcs s (upd (s_tcs s) t ([], [])), Ok)
+    end
+  | OTrNew is times =>
+    match mapM (nth_error (s_hnd s)) is with
+    | None => (s, Err EIndex)
+    | Some vs =>
+      if same_dims vs then
+        let ts := match times with None => range_q (length vs) | Some ts => ts end in
+        if Nat.eqb (length ts) (length vs) then (sp_trs s (s_trs s ++ [(ts, vs)]), Ok)
+        else (s, Err EValue)
+      else (s, Err EValue)
+    end
+  | OTrAppend k i time =>
+    match nth_error (s_trs s) k, nth_error (s_hnd s) i with
+    | Some (ts, dvs), Some v =>
+      let okdim := match last_opt dvs with None => true | Some vl => Nat.eqb (dim v) (dim vl) end in
+      if okdim then
+        let tm := match time with Some q => q | None => default_time ts end in
+        (sp_trs s (upd (s_trs s) k (ts ++ [tm], dvs ++ [v])), Ok)
+      else (s, Err EValue)
+    | _, _ => (s, Err EIndex)
+    end
+  | OTrAppendBad k =>
+    match nth_error (s_trs s) k with None => (s, Err EIndex) | Some _ => (s, Err EAttr) end
+  | OTrSlice k lo hi =>
+    match nth_error (s_trs s) k with
+    | None => (s, Err EIndex)
+    | Some (ts, dvs) =>
+      let vs := slice lo hi dvs in
+      if same_dims vs then
+        if Nat.eqb (length (slice lo hi ts)) (length vs) then (sp_trs s (s_trs s ++ [(slice lo hi ts, vs)]), Ok)
+        else (s, Err EValue)
+      else (s, Err EValue)
+    end
+  | OTrGet k i =>
+    match nth_error (s_trs s) k with
+    | None => (s, Err EIndex)
+    | Some (_, dvs) => match nth_error dvs i with
+                       | None => (s, Err EIndex)
+                       | Some v => (sp_hnd s (s_hnd s ++ [v]), Ok)
+                       end
+    end
+  | OTlNew ks =>
+    match mapM (nth_error (s_trs s)) ks with
+    | None => (s, Err EIndex)
+    | Some _ => (sp_tls s (s_tls s ++ [ks]), Ok)
+    end
+  | OTlRemoveShort l q =>
+    match nth_error (s_tls s) l with
+    | None => (s, Err EIndex)
+    | Some ks =>
+      match mapM (nth_error (s_trs s)) ks with
+      | None => (s, Err EDangling)
+      | Some ts => (sp_tls s (upd (s_tls s) l
+                      (filter_by (map (fun t => negb (Qle_bool (duration (fst t)) q)) ts) ks)), Ok)
+      end
+    end
+  end.
+
+(* operations of the list model: the default-flag operations except writes through a linked array *)
+Definition list_op (o : op) : bool :=
+  match o with
+  | OWriteA _ _ _ _ => false
+  | _ => sep_op o
+  end.
+
+Definition spec_run (s : spec) (os : list op) : spec := fold_left (fun s o => fst (spec_step s o)) os s.
+
+(* ------------------------------------------------------------------------------------ *)
+(* summary queries as functions of the member values                                     *)
+(* ------------------------------------------------------------------------------------ *)
+(* The volume / surface area of a droplet involve pi and roots, which are not rational: the
+   queries are parameterised by per-droplet functions [vol], [area] : value -> Q.  np.std is
+   stated as the variance (mean of squared deviations). *)
+From Coq Require Import Qminmax Qabs.
+
+Definition qsum (l : list Q) : Q := fold_right Qplus 0%Q l.
+Definition qlen {A} (l : list A) : Q := inject_Z (Z.of_nat (length l)).
+Definition qmean (xs : list Q) : Q := (qsum xs / qlen xs)%Q.
+Definition qvariance (xs : list Q) : Q :=
+  let m := qmean xs in (qsum (map (fun x => (x - m) * (x - m))%Q xs) / qlen xs)%Q.
+
+Definition st_count (vs : list value) : nat := length vs.
+Definition st_radius_mean (vs : list value) : Q := qmean (map rad vs).
+Definition st_radius_var (vs : list value) : Q := qvariance (map rad vs).
+Definition st_volume_mean (vol : value -> Q) (vs : list value) : Q := qmean (map vol vs).
+Definition st_volume_var (vol : value -> Q) (vs : list value) : Q := qvariance (map vol vs).
+Definition st_total_volume (vol : value -> Q) (vs : list value) : Q := qsum (map vol vs).
+
+(* Emulsion.interface_width: average of the widths weighted by surface area over the members that
+   have a width; None when the total weight is zero *)
+Definition width_of (v : value) : option Q := match extra v with w :: _ => Some w | [] => None end.
+Definition weighted (area : value -> Q) (vs : list value) : list (Q * Q) :=
+  flat_map (fun v => match width_of v with Some w => [(w, area v)] | None => [] end) vs.
+Definition st_width (area : value -> Q) (vs : list value) : option Q :=
+  let ws := weighted area vs in
+  let a := qsum (map snd ws) in
+  if Qeq_bool a 0 then None else Some (qsum (map (fun p => fst p * snd p)%Q ws) / a)%Q.
+
+(* bounding box along axis k: [min (p_k - r), max (p_k + r)] *)
+Definition lo_bound (l : list Q) : option Q :=
+  fold_right (fun x acc => match acc with None => Some x | Some m => Some (Qmin x m) end) None l.
+Definition hi_bound (l : list Q) : option Q :=
+  fold_right (fun x acc => match acc with None => Some x | Some m => Some (Qmax x m) end) None l.
+Definition axis_lows (k : nat) (vs : list value) : list Q :=
+  flat_map (fun v => match nth_error (pos v) k with Some p => [(p - rad v)%Q] | None => [] end) vs.
+Definition axis_highs (k : nat) (vs : list value) : list Q :=
+  flat_map (fun v => match nth_error (pos v) k with Some p => [(p + rad v)%Q] | None => [] end) vs.
+Definition st_bbox (k : nat) (vs : list value) : option Q * option Q :=
+  (lo_bound (axis_lows k vs), hi_bound (axis_highs k vs)).
+
+(* DropletTrack: trajectory of an attribute, duration ([duration] above) *)
+Definition trajectory (vs : list value) : list (list Q) := map pos vs.
+Definition radii (vs : list value) : list Q := map rad vs.
+
+(* EmulsionTimeCourse.get_emulsion(time): index of the FIRST minimum of |t_i - time| (np.argmin) *)
+Fixpoint argmin_from (best : nat * Q) (i : nat) (l : list Q) : nat :=
+  match l with
+  | [] => fst best
+  | x :: r => if Qlt_le_dec x (snd best) then argmin_from (i, x) (S i) r else argmin_from best (S i) r
+  end.
+Definition nearest (ts : list Q) (t : Q) : option nat :=
+  match map (fun x => Qabs (x - t)) ts with
+  | [] => None
+  | d :: r => Some (argmin_from (0%nat, d) 1%nat r)
+  end.
